@@ -454,6 +454,12 @@ class Reconcile:
             - `False`: Coming from out-of-tree `AST` parent.
         """
 
+        if node.__class__ is str:  # primitive element of a list field (Global / Nonlocal names, MatchClass kwd_attrs), only put if changed so as not to rewrite source which is not NFKC normalized
+            if node_parent is not False and pfield.get(out_parent.a) != node:
+                self.put_node(node, out_parent, pfield)
+
+            return
+
         if not (nodef := getattr(node, 'f', None)) or nodef.root is not self.work:  # pure AST if no '.f' or FST from different tree
             if nodef:  # FST from different tree, need to verify it before using
                 try:
